@@ -1,7 +1,7 @@
 (* Proofs about the static hash table model: representation invariant Rep (a layout of entries with pairwise disjoint
    slot lists, exact collision counts, intact value chains with back links, free slots elsewhere, header counters equal
    to the census) is preserved by every operation, and every history refines the ideal bounded map (run_refines). *)
-From Coq Require Import List Arith ZArith Lia Bool.
+From Coq Require Import List Arith ZArith Lia Bool Permutation.
 From QV.Gen Require Consts.
 From QV.Harr Require Import HarrModel HarrSpec.
 Import ListNotations.
@@ -1858,5 +1858,113 @@ Proof.
       split; [congruence|]. exists lay2. auto. }
   apply (G os [] (init m) (rep_init m) eq_refl).
 Qed.
+
+(* ================= the remaining public operations ================= *)
+Local Notation is_walkslot := (@HarrModel.is_walkslot K).
+Local Notation getnext := (@HarrModel.getnext K).
+Local Notation walk_from := (@HarrModel.walk_from K).
+Local Notation walk := (@HarrModel.walk K).
+Local Notation clear := (@HarrModel.clear K).
+Local Notation remove_idx_api := (@HarrModel.remove_idx_api K).
+
+Lemma rep_lay_nil lay g : Rep lay g -> used g = 0 -> lay = [].
+Proof. intros R Hu. rewrite (rUsed _ _ R) in Hu. destruct lay as [|e l]; [reflexivity|]. exfalso.
+  destruct (ent_head _ _ e R ltac:(left; reflexivity)) as (i0 & r & Ei & _). unfold allidx in Hu. cbn [map concat] in Hu. rewrite Ei in Hu.
+  cbn [app length] in Hu. lia. Qed.
+Theorem clear_rep lay g : Rep lay g -> Rep [] (clear g) /\ maxs (clear g) = maxs g.
+Proof. intros R. unfold HarrModel.clear. destruct (Z.eqb (used g) 0) eqn:E.
+  - apply Z.eqb_eq in E. rewrite (rep_lay_nil _ _ R E) in R. auto.
+  - split; [apply (rep_init (maxs g))|reflexivity]. Qed.
+Theorem size_rep lay g : Rep lay g -> num g = Z.of_nat (length (kv lay)) /\ used g = aused (kv lay).
+Proof. intros R. split; [unfold kv; rewrite map_length; apply (rNum _ _ R)|symmetry; apply rep_aused; exact R]. Qed.
+
+(* remove-by-index is removal of the key stored in that slot; on any other slot it fails and changes nothing *)
+Theorem delidx_rep lay g i : Rep lay g -> (i < maxs g)%nat ->
+  (is_keyslot (getS g i) = true ->
+     exists e, In e lay /\ key (getS g i) = Some (ek e) /\ remove_idx_api g i = remove g (ek e) /\ snd (remove g (ek e)) = true) /\
+  (is_keyslot (getS g i) = false -> remove_idx_api g i = (g, false)).
+Proof. intros R Hi. unfold HarrModel.remove_idx_api. apply Nat.ltb_lt in Hi as Hb. rewrite Hb. split; intros Hk.
+  - destruct (keyslot_is_head _ _ _ R Hi Hk) as (e & He & Hhd & _ & Hkey).
+    apply in_split in He as (l1 & l2 & ->).
+    destruct (remove_present _ _ _ _ R) as (g' & lay' & H1 & H2 & _). rewrite Hhd in H1.
+    exists e. split; [apply in_or_app; right; left; reflexivity|]. split; [exact Hkey|]. rewrite H1, H2. auto.
+  - unfold HarrModel.is_keyslot in Hk. apply orb_false_iff in Hk as [K1 K2]. apply Z.ltb_ge in K1. apply Z.eqb_neq in K2.
+    unfold HarrModel.remove_by_idx. destruct (Z.eqb (cnt (getS g i)) 1) eqn:E1; [apply Z.eqb_eq in E1; lia|].
+    destruct (Z.ltb 1 (cnt (getS g i))) eqn:E2; [apply Z.ltb_lt in E2; lia|].
+    destruct (Z.eqb (cnt (getS g i)) (-1)) eqn:E3; [apply Z.eqb_eq in E3; lia|]. reflexivity. Qed.
+
+(* the walk hands out every stored key exactly once with its value *)
+Definition walk_list (g:img) (idxs:list nat) : list (option K * list byte) :=
+  map (fun i => (key (getS g i), get_data (S (maxs g)) g i)) (filter (fun i => is_walkslot (getS g i)) idxs).
+Lemma walk_from_seq g : forall n idx fuel, (n < fuel)%nat -> (idx + n = maxs g)%nat -> walk_from fuel g idx = walk_list g (seq idx n).
+Proof. induction n as [|n IH]; intros idx fuel Hf Hm; (destruct fuel as [|f]; [lia|]).
+  - cbn [HarrModel.walk_from]. unfold HarrModel.getnext. replace (maxs g - idx)%nat with O by lia. reflexivity.
+  - cbn [HarrModel.walk_from]. unfold HarrModel.getnext. replace (maxs g - idx)%nat with (S n) by lia. cbn [seq find].
+    unfold walk_list. cbn [seq filter]. destruct (is_walkslot (getS g idx)) eqn:E.
+    + cbn [map]. f_equal. apply IH; lia.
+    + specialize (IH (S idx) (S f) ltac:(lia) ltac:(lia)). cbn [HarrModel.walk_from] in IH. unfold HarrModel.getnext in IH.
+      replace (maxs g - S idx)%nat with n in IH by lia. exact IH. Qed.
+Lemma nodup_app_r {A} (a b : list A) : NoDup (a ++ b) -> NoDup b.
+Proof. induction a as [|x a IH]; [auto|]. cbn. intros H. inversion H; auto. Qed.
+Lemma heads_nodup lay : NoDup (allidx lay) -> (forall e, In e lay -> ei e <> []) -> NoDup (map (fun e => hd O (ei e)) lay).
+Proof. induction lay as [|e l IH]; intros Hn He; [constructor|]. rewrite allidx_cons in Hn. cbn [map].
+  destruct (ei e) as [|i0 r] eqn:Ei; [exfalso; apply (He e); [left; reflexivity|exact Ei]|]. cbn [hd].
+  constructor.
+  - intros Hin. apply in_map_iff in Hin as (e' & Hh & He'). pose proof (NoDup_app_disj _ _ Hn i0 ltac:(left; reflexivity)) as D. apply D.
+    apply in_allidx. exists e'. split; auto. destruct (ei e') as [|j r'] eqn:Ej; [exfalso; apply (He e'); [right; auto|exact Ej]|]. cbn in Hh. subst j. left. reflexivity.
+  - apply IH; [eapply nodup_app_r; exact Hn|intros e' He'; apply He; right; exact He']. Qed.
+Theorem walk_perm lay g : Rep lay g -> Permutation.Permutation (walk g) (map (fun e => (Some (ek e), ev e)) lay).
+Proof. intros R. unfold HarrModel.walk. rewrite (walk_from_seq g (maxs g) O) by lia. unfold walk_list.
+  assert (Hne : forall e, In e lay -> ei e <> []).
+  { intros e He. destruct (ent_head _ _ e R He) as (i0 & r & Ei & _). rewrite Ei. discriminate. }
+  assert (P : Permutation.Permutation (filter (fun i => is_walkslot (getS g i)) (seq 0 (maxs g))) (map (fun e => hd O (ei e)) lay)).
+  { apply Permutation.NoDup_Permutation; [apply NoDup_filter, seq_NoDup|apply heads_nodup; [apply (rNoDup _ _ R)|exact Hne]|].
+    intros i. rewrite filter_In, in_seq. split.
+    - intros ((_ & Hi) & Hw). cbn in Hi. unfold HarrModel.is_walkslot in Hw. apply andb_prop in Hw as [W0 W2].
+      apply negb_true_iff, Z.eqb_neq in W0, W2.
+      destruct (in_dec Nat.eq_dec i (allidx lay)) as [Hin|Hn]; [|exfalso; apply W0; apply (rFree _ _ R); auto].
+      apply in_allidx in Hin as (e & He & Hie). destruct (ent_head _ _ e R He) as (i0 & r & Ei & _ & _ & _ & Hr).
+      rewrite Ei in Hie. destruct Hie as [<-|Hie]; [|exfalso; apply W2; apply Hr; exact Hie].
+      apply in_map_iff. exists e. rewrite Ei. auto.
+    - intros Hin. apply in_map_iff in Hin as (e & Hh & He). destruct (ent_head _ _ e R He) as (i0 & r & Ei & _ & _ & Hks & _).
+      rewrite Ei in Hh. cbn in Hh. subst i0. split.
+      + split; [lia|]. cbn. apply (rRange _ _ R). apply in_allidx. exists e. rewrite Ei. split; auto. left; reflexivity.
+      + unfold HarrModel.is_keyslot in Hks. unfold HarrModel.is_walkslot. apply orb_true_iff in Hks as [Hp|Hm1].
+        * apply Z.ltb_lt in Hp. apply andb_true_intro. split; apply negb_true_iff, Z.eqb_neq; lia.
+        * apply Z.eqb_eq in Hm1. rewrite Hm1. reflexivity. }
+  eapply Permutation.perm_trans; [apply Permutation.Permutation_map; exact P|]. rewrite map_map.
+  assert (E : map (fun e => (key (getS g (hd O (ei e))), get_data (S (maxs g)) g (hd O (ei e)))) lay = map (fun e => (Some (ek e), ev e)) lay).
+  { apply map_ext_in. intros e He. destruct (ent_head _ _ e R He) as (i0 & r & Ei & Hkey & _). rewrite Ei. cbn [hd]. rewrite Hkey. f_equal.
+    pose proof (get_data_ent lay g e (S (maxs g)) R He) as G. rewrite Ei in G. cbn [hd] in G. apply G.
+    pose proof (ent_len_le _ _ _ R He). rewrite Ei in *. lia. }
+  rewrite E. apply Permutation.Permutation_refl. Qed.
+
+(* every operation of the full interface keeps the image well formed *)
+Local Notation xstep := (@HarrModel.xstep K keq home).
+Local Notation xrun := (@HarrModel.xrun K keq home).
+Theorem xstep_rep lay g o : Rep lay g -> (forall k, home k < maxs g)%nat ->
+  exists lay', Rep lay' (fst (xstep g o)) /\ maxs (fst (xstep g o)) = maxs g.
+Proof. intros R Hh. destruct o as [b|i| | |]; cbn [HarrModel.xstep].
+  - pose proof (step_refines lay g b R Hh) as S. destruct (step g b) as [g' x]. destruct (sstep (maxs g) (kv lay) b) as [m' y].
+    destruct S as (_ & lay' & R' & _ & M'). cbn [fst]. eauto.
+  - destruct (Nat.ltb i (maxs g)) eqn:Ei.
+    + apply Nat.ltb_lt in Ei. destruct (delidx_rep lay g i R Ei) as (D1 & D2). destruct (is_keyslot (getS g i)) eqn:Ek.
+      * destruct (D1 eq_refl) as (e & He & _ & Eq & _). rewrite Eq.
+        pose proof (step_refines lay g (Del (ek e)) R Hh) as S. cbn [HarrModel.step] in S. destruct (remove g (ek e)) as [g' b'].
+        destruct (sstep (maxs g) (kv lay) (Del (ek e))) as [m' y]. destruct S as (_ & lay' & R' & _ & M'). cbn [fst]. eauto.
+      * rewrite (D2 eq_refl). cbn [fst]. eauto.
+    + unfold HarrModel.remove_idx_api. rewrite Ei. cbn [fst]. eauto.
+  - destruct (clear_rep lay g R) as (R' & M'). cbn [fst]. eauto.
+  - cbn [fst]. eauto.
+  - cbn [fst]. eauto. Qed.
+Theorem xrun_rep m os : (forall k, home k < m)%nat ->
+  exists lay, Rep lay (fst (xrun (init m) os)) /\ maxs (fst (xrun (init m) os)) = m.
+Proof. intros Hh.
+  assert (G : forall os lay g, Rep lay g -> maxs g = m -> exists lay', Rep lay' (fst (xrun g os)) /\ maxs (fst (xrun g os)) = m).
+  { induction os0 as [|o r IH]; intros lay g R M; cbn [HarrModel.xrun]; [cbn [fst]; eauto|].
+    destruct (xstep_rep lay g o R ltac:(rewrite M; exact Hh)) as (lay1 & R1 & M1).
+    destruct (xstep g o) as [g1 x] eqn:E1. cbn [fst] in R1, M1.
+    destruct (IH lay1 g1 R1 ltac:(congruence)) as (lay2 & R2 & M2). destruct (xrun g1 r) as [g2 xs]. cbn [fst] in *. eauto. }
+  apply (G os [] (init m) (rep_init m) eq_refl). Qed.
 End Harr.
 Print Assumptions run_refines.
